@@ -298,6 +298,7 @@ theorem heNew_range (che aHe h0 : ℝ) (hche : 0 ≤ che) (hA : 0 ≤ aHe) (hh :
       have hq : 0 < 2 * aHe * che := by positivity
       have := root_range ((1 + 2 * aHe - h0) * che + 1) (4 * aHe * (1 + aHe - h0) * che * che)
         (2 * aHe * che) hbhe.le hq (by positivity) (by nlinarith)
+      rw [amin_real, min_eq_right (by simpa [ArithFns.sqrt] using this.2)]
       simpa [ArithFns.sqrt] using this
 
 /-- the new hydrogen fraction of one loop body lies in `[0, 1]` when `ch ≥ 0` -/
